@@ -14,7 +14,7 @@ From Coq Require Import String ZArith List Bool Lia Ring Field Reals.
 From Flocq Require Import Core BinarySingleNaN.
 Require IBL.C09.Model IBL.C09.Proofs.
 Import IBL.C09.Model IBL.C09.Proofs.
-From IBL.C16 Require Import Model Proofs Sweep Range RangeProofs Ulp.
+From IBL.C16 Require Import Model Proofs Sweep Range RangeProofs Ulp Compare.
 Import ListNotations.
 Open Scope Z_scope.
 
@@ -114,6 +114,26 @@ Theorem C16_proportion_test_last_ulp :
   (i_gt_pp (i_mean c n) p = true <-> (rnd64 (IZR c / IZR n) > B2R p)%R).
 Proof. exact pub_proportion_last_ulp. Qed.
 Print Assumptions C16_proportion_test_last_ulp.
+
+(* IEEE instances (binary32 / binary64 operands in any combination, finite values):
+   the source's `np.abs(data) > max_voltage * 0.98` is the STRICT comparison of the two
+   stored values as real numbers (operands of different dtypes are widened exactly),
+   and `... / fs >= v_per_sec` the NON-strict one. *)
+Theorem C16_voltage_comparison_is_strict_real :
+  forall p1 e1 p2 e2 (H1 : Prec_gt_0 p1) (H1' : Prec_lt_emax p1 e1)
+         (H2 : Prec_gt_0 p2) (H2' : Prec_lt_emax p2 e2)
+         (a : binary_float p1 e1) (b : binary_float p2 e2),
+  fmt_ok p1 e1 -> fmt_ok p2 e2 -> is_finite a = true -> is_finite b = true ->
+  (i_gt_vw p1 e1 p2 e2 a b = true <-> (B2R a > B2R b)%R).
+Proof. exact pub_gt_vw_real. Qed.
+Print Assumptions C16_voltage_comparison_is_strict_real.
+
+Theorem C16_slew_comparison_is_nonstrict_real :
+  forall p e (H1 : Prec_gt_0 p) (H1' : Prec_lt_emax p e) (a b : binary_float p e),
+  fmt_ok p e -> is_finite a = true -> is_finite b = true ->
+  (i_ge_vv p e a b = true <-> (B2R a >= B2R b)%R).
+Proof. exact pub_ge_vv_real. Qed.
+Print Assumptions C16_slew_comparison_is_nonstrict_real.
 
 (* ---- Part 1b: the full-scale voltage handed over by the reader ------------------ *)
 (* decompress_destripe_cbin calls saturation(max_voltage = Reader.range_volts[:nc - nsync]).
@@ -322,3 +342,32 @@ Example C16_example_range_volts_np1 :
   option_map (fun d => (range_volts d, ncv d)) (read_meta small_np1_file)
   = Some (Some ((6, 1%nat), 512, 512, [CG (500, O); CG (250, O); C1]), Some 2).
 Proof. vm_compute. reflexivity. Qed.
+
+(* the hypotheses of C16_max_voltage_from_reader_np1 hold for that file (h = [0;2], two IMRO
+   entries, AP stream, nSavedChans 3, one sync channel): every one is a closed evaluation *)
+Definition small_np1_entries : list (Z * Z * Z * Z * Z * option Z) :=
+  [(0, 0, 0, 500, 250, Some 1); (1, 0, 0, 250, 125, Some 1)].
+Example C16_example_reader_hypotheses :
+  exists d x y,
+    read_meta small_np1_file = Some d /\
+    int2volt d = Some ((6, 1%nat), 512) /\
+    lookup (lit "imroTbl") d = Some (VStr (imro_text [0; 2] small_np1_entries)) /\
+    lookup (lit "snsApLfSy") d = Some x /\ py_index x (-1) = Some y /\ py_int y = Some 1 /\
+    nchannels d = Some 3 /\ sync_indices d = Some (2, 1) /\
+    version d = Some V3B1 /\ get_type d = Some (Some SAp) /\
+    (Z.to_nat (3 - 1) <= length small_np1_entries)%nat.
+Proof.
+  destruct (read_meta small_np1_file) as [d|] eqn:E; [|vm_compute in E; discriminate].
+  vm_compute in E. injection E as <-.
+  eexists. eexists. eexists.
+  repeat split; try (vm_compute; reflexivity).
+Qed.
+
+(* the last ulp really is missed: proportion = fl(1/3) and one channel of three — the exact
+   fraction 1/3 exceeds the float64 proportion 0.333333333333333314829616256247..., the test
+   does not fire; two of three fire *)
+Example C16_example_last_ulp_miss :
+  let p := i_mean 1 3 in
+  is_finite p = true /\ i_gt_pp (i_mean 1 3) p = false /\ i_gt_pp (i_mean 2 3) p = true /\
+  SpecFloat.SFcompare (B2SF p) (B2SF (of_me64 6004799503160661 (-54))) = Some Eq.
+Proof. vm_compute. repeat split. Qed.
